@@ -85,6 +85,10 @@ type Scenario struct {
 	// Again: the receiver has read another stream to its END before (its last DecodeBebop
 	// there failed: nothing was left), and only then reads this history.
 	Again bool `json:"again,omitempty"`
+	// Overlap > 0 (history scenarios): while the Overlap-th Read of the first record's decode
+	// is in progress, ANOTHER caller decodes the whole history from a stream of its own
+	// (two decoders overlap, switching at a Read boundary).
+	Overlap int `json:"overlap,omitempty"`
 	// EncOps: a history of EncodeBebop calls by one or two callers onto two destinations
 	EncOps   []EncOp           `json:"enc_ops,omitempty"`
 	Input    []byte            `json:"input,omitempty"` // explicit bytes (corruption scenarios)
